@@ -89,6 +89,14 @@ def _run_subcheck(sc, rec, tier, seed, shard, nshards, t_end):
         if time.time() > t_end:
             state["skipped"] += 1
             return
+        if shard > 0 and sc.enum is None:
+            # Hypothesis always generates its all-minimal example first; only shard 0 executes it, the other shards
+            # skip it (consistently, by hash) and get one more example instead
+            h = case_hash(case)
+            if state.get("first") is None:
+                state["first"] = h
+            if state["first"] == h:
+                return
         rec.begin(case)
         try:
             sc.run(case, rec)
@@ -116,7 +124,7 @@ def _run_subcheck(sc, rec, tier, seed, shard, nshards, t_end):
 
     import hypothesis
     from hypothesis import given, settings, HealthCheck, Phase, Verbosity
-    n = max(1, n_total // nshards)
+    n = max(1, n_total // nshards) + (1 if shard > 0 else 0)
     if sc.machine is not None:
         from hypothesis.stateful import run_state_machine_as_test
         Machine = sc.machine(rec, tier)
